@@ -48,7 +48,8 @@ def paramOf (P : StepParams) : Gen.Py.Param → Rat
   | .theta0 => P.theta0
   | .beta => P.beta.getD 1
 
-/-- the translated body of kernel `name` (Generated/Coeffs.lean `C.kernelProgs`), resolved against its signature entry.
+/-- the translated body of kernel `name` (Generated/Coeffs.lean `C.kernelProgs`), resolved against its signature entry, statements in
+    SOURCE order (`C02_kernel_source_order`: the same as the canonical order the table theorem compares).
     `endAxis = some p`: the C function is called directly with the end of its outermost loop = extent of axis p (what the harness
     does through ctypes on non-cubic arrays) instead of what the Cython wrapper passes. -/
 def kernelProgram (name : String) (endAxis : Option Nat) : Option KProg.KProgR := do
@@ -59,7 +60,7 @@ def kernelProgram (name : String) (endAxis : Option Nat) : Option KProg.KProgR :
     | some q, some last =>
         if last.endsWith "end" then { K with pyxCall := K.pyxCall.set (K.cParams.length - 1) (.shape K.rolePhi q) } else K
     | _, _ => K
-  some (KProg.resolve K' p)
+  some (KProg.resolveSrc K' p)
 
 def progBad (R : KProg.KProgR) : Bool :=
   R.stmts.any (fun st => match st with | .bad _ => true | _ => false)
